@@ -233,10 +233,136 @@ def bucket_arithmetic(ctx):
     return out
 
 
+def xor_builder(ctx):
+    """the per-zone XOR filter is built from every value a probe can ask for"""
+    b = Builder(ctx, "zone-zone_xor_index-{impl#0}-build_for_field.", "ZoneXorFilterIndex::build_for_field", {})
+    E, q = b.E, ctx.q
+    r = b.mk("B-5", "ZoneXorFilterIndex::build_for_field collects, for every event of a zone whose payload holds the field, exactly the "
+                    "text value_to_string gives for it (no value is left out), hashes the collected values with stable_hash64 and "
+                    "builds the zone's filter from those hashes - the same normalisation and hash the probes use")
+    out = [b.results["B-5"]]
+    if not r:
+        return out
+    vts = oblig.events(E, r"value_to_string$")
+    pushes = [e for e in E.events if re.search(r"Vec::<.*String>::push$", e.func)]
+    hashes = oblig.events(E, r"stable_hash64")
+    fuse = oblig.events(E, r"BinaryFuse8::try_from_iterator")
+    if not (oblig.need_anchor(r, vts, "value_to_string") and oblig.need_anchor(r, pushes, "values.push")
+            and oblig.need_anchor(r, hashes, "stable_hash64") and oblig.need_anchor(r, fuse, "BinaryFuse8::try_from_iterator")):
+        return out
+    r.nontrivial = True
+    for v in vts:
+        mine = [p_ for p_ in pushes if len(p_.args) > 1 and v.site in {sym.describe(p_.args[1]).split(":")[0]} | set(E.trace(p_.args[1], p_.env, depth=4))]
+        pushed = z3.Or([p_.reach for p_ in mine]) if mine else z3.BoolVal(False)
+        got = z3.BitVec(f"disc({v.site})", 64) == 1
+        # the loop goes on (next event / end of the zone's events) only with the value collected
+        res, model = q.check(v.reach, got, z3.Not(pushed), domain=E.domain)
+        r.queries += 1
+        if res == z3.sat:
+            # a path on which value_to_string returned Some but nothing is pushed: is it a real continuation (not an abort)?
+            oblig.violated(r, E, q, v, model, "a value that value_to_string renders is not added to the zone's filter values "
+                                              "(an equality probe for it will not find this zone)")
+            return out
+        for p_ in mine:
+            if sym.describe(p_.args[1]) != f"{v.site}:Some.0":
+                r.status = "violated"
+                r.witness = {"what": f"the value collected is not value_to_string's text itself ({sym.describe(p_.args[1])[:60]})",
+                             "span": f"{p_.span[0]}:{p_.span[1]}" if p_.span else None, "call": p_.func[:80], "path": [], "model": {}}
+                return out
+    # what is inserted into the set of hashes is stable_hash64 of a collected value
+    hs = [e for e in E.events if re.search(r"HashSet::<u64.*>::insert$|HashSet::insert$", e.func) and len(e.args) > 1]
+    if not hs or not all(sym.describe(e.args[1]).startswith("stable_hash64#") for e in hs):
+        r.status = "violated"
+        r.witness = {"what": "the zone filter is not built from stable_hash64 of the collected values", "span": None,
+                     "call": "build_for_field", "path": [], "model": {}}
+        return out
+    return out
+
+
+def replay_wildcard(ctx):
+    """two event types of one context in one segment; REPLAY of the context before and after FLUSH"""
+    import json
+    import shutil
+    import tempfile
+    from vlib import history
+    binary = native_binary(ctx.log)
+    if binary is None:
+        return False, "native replay program did not build"
+    root = tempfile.mkdtemp(prefix="verif-hist-")
+    try:
+        history.write_config(root, capacity=10, shards=1)
+        script = ('DEFINE a FIELDS { "n": "int" }; DEFINE b FIELDS { "n": "int" }; STORE a FOR c1 PAYLOAD {"n": 1}; '
+                  'STORE b FOR c1 PAYLOAD {"n": 2}; !sleep 200; REPLAY FOR c1; FLUSH; !wait; !sleep 400; REPLAY FOR c1')
+        rc, out, err = history.run_lifetime(binary, root, script)
+        res = []
+        for _i, o in out:
+            if isinstance(o, str) and '"type":"end"' in o:
+                rows = []
+                for line in o.splitlines():
+                    try:
+                        j = json.loads(line)
+                    except ValueError:
+                        continue
+                    if j.get("type") == "batch":
+                        rows += [(x[1], x[-1]) for x in j["rows"]]
+                res.append(sorted(rows))
+        if len(res) < 2:
+            return False, "REPLAY responses not read"
+        text = (f"events a(n=1) and b(n=2) of context c1: REPLAY FOR c1 returns {res[0]} while both are in memory and {res[-1]} once "
+                "they share a flushed segment")
+        return res[0] != res[-1], text
+    finally:
+        shutil.rmtree(root, ignore_errors=True)
+
+
+def zone_identity(ctx):
+    """candidate zones of different event types must not be merged"""
+    out = []
+    r = Result("B-4", "candidate zones are de-duplicated and combined (AND / OR) by segment, zone id and event type: zone ids are "
+                      "counted per event type inside a segment, so zones of two event types with the same id are different zones "
+                      "(a wildcard REPLAY / QUERY over a context spans several types)")
+    r.functions = ["CandidateZone::uniq", "ZoneCombiner::combine"]
+    r.bounds = "data flow of the de-duplication keys"
+    out.append(r)
+    keyed = []
+    for needle, label, pat in (("zone-candidate_zone-{impl#0}-uniq.", "CandidateZone::uniq", r"HashSet::<.*>::insert$|HashSet::insert$"),):
+        b = Builder(ctx, needle, label, {})
+        if b.E is None:
+            r.status = "inconclusive"
+            r.notes.append(b.err)
+            return out
+        E = b.E
+        evs = [e for e in E.events if re.search(pat, e.func) and len(e.args) > 1]
+        if not oblig.need_anchor(r, evs, f"key insertion in {label}"):
+            return out
+        for e in evs:
+            key = e.args[1]
+            fields = key.fields if isinstance(key, sym.Agg) else [key]
+            src = set()
+            for f_ in fields:
+                src |= E.trace(f_, e.env, depth=6) | {sym.describe(f_)}
+            keyed.append((label, e, any(re.search(r"\.uid\b|uid", x) for x in src), sorted(src)[:8]))
+    r.nontrivial = True
+    bad = [k for k in keyed if not k[2]]
+    if not bad:
+        return out
+    label, e, _, src = bad[0]
+    ok, text = replay_wildcard(ctx)
+    r.witness = {"what": f"{label} identifies a zone by {src} - the event type (uid) is not part of the key, so in a wildcard scope the zone 0 "
+                         f"of a second event type in the same segment is dropped as a duplicate: " + text,
+                 "span": f"{e.span[0]}:{e.span[1]}" if e.span else None, "call": e.func[:80], "path": [], "model": {}, "native": text}
+    r.status = "violated" if ok else "inconclusive"
+    if not ok:
+        r.notes.append("the key ignores the event type but the end-to-end replay did not show a lost event: " + text)
+    return out
+
+
 def obligations(ctx):
     q = ctx.q
     out = []
     out += calendar_builder(ctx)
+    out += xor_builder(ctx)
+    out += zone_identity(ctx)
     out += bucket_arithmetic(ctx)
     r = Result("B-1", "calendar bucket ids preserve the order of timestamps (ts1 <= ts2 => bucket_id(ts1) <= "
                       "bucket_id(ts2), hour and day granularity), which the calendar's >= / <= / range lookups rely on")
